@@ -1090,16 +1090,6 @@ package goatlang
 //@   property C07
 //@   trusted
 //@   allocates stringMap numericMap elems(string) elems(float64)
-//@ func (Value).addField
-//@   property C07
-//@   trusted
-//@   modifies allbut(H$VM,A$instruction,H$funcT,H$lookup)
-//@   ensures stackKept()
-//@ func (Value).syncFields
-//@   property C07
-//@   trusted
-//@   modifies allbut(H$VM,A$instruction,H$funcT,H$lookup)
-//@   ensures stackKept()
 //@ func newNext
 //@   property C07
 //@   trusted
@@ -2356,11 +2346,12 @@ package goatlang
 //@   ensures#wf rh(*m) && m.total == count(*m) && m.total == old(m.total) && m.size == ite(size < 16, 16, size)
 //@   ensures#view forall k int, x Value :: trig(k, x) ==> (holds(*m, k, x) <==> old(holds(*m, k, x)))
 //@   ensures#keys forall k int :: trig(k) ==> (has(*m, k) <==> old(has(*m, k)))
+//@   ensures#arr m.pairs == old(m.pairs) || isfresh(arr(m.pairs))
 //@   uses view: view weiv hdr oldkept rh
 //@   uses keys: keys hdr oldkept rh
 //@ func (*intMap).resize loop 0
 //@   invariant#rh rh(*m) && m.size == size && m != nil
-//@   invariant#hdr m.total == total && total == old(m.total) && pairs == old(m.pairs) && arr(m.pairs) != arr(pairs)
+//@   invariant#hdr m.total == total && total == old(m.total) && pairs == old(m.pairs) && arr(m.pairs) != arr(pairs) && isfresh(arr(m.pairs))
 //@   invariant#oldkept same(elemsAt(intMapPair, arr(pairs)), old(elemsAt(intMapPair, arr(m.pairs))))
 //@   invariant#count count(*m) == cnt(elemsAt(intMapPair, arr(pairs)), off(pairs), off(pairs) + rangeidx)
 //@   invariant#view forall k int, x Value :: trig(k, x) && holds(*m, k, x) ==> holdsIn(pairs, rangeidx, k, x)
@@ -2386,6 +2377,7 @@ package goatlang
 //@   ensures#others forall k2 int, x Value :: trig(k2, x) && k2 != key ==> (holds(*m, k2, x) <==> old(holds(*m, k2, x)))
 //@   ensures#keys forall k2 int :: trig(k2) ==> (has(*m, k2) <==> (old(has(*m, k2)) || k2 == key))
 //@   ensures#total m.total == old(m.total) + ite(old(has(*m, key)), 0, 1)
+//@   ensures#arr m.pairs == old(m.pairs) || isfresh(arr(m.pairs))
 //@ func (*intMap).Set loop 0
 //@   invariant#probe forall p int :: 0 <= p && p < len(m.pairs) && m.pairs[p].distance != 0 && m.pairs[p].key == key ==> cyc(i & m.mask, key & m.mask, m.size) <= m.pairs[p].distance - 1
 //@   invariant#frame same(elemsAt(intMapPair, arr(m.pairs)), old(elemsAt(intMapPair, arr(m.pairs)))) && *m == old(*m) && hash == key
@@ -2495,3 +2487,19 @@ package goatlang
 //@   ensures#new !old(has(*as(v.value, *structT).Methods, idx)) ==> (trig(idx, val) ==> holds(*as(v.value, *structT).Methods, idx, val))
 //@   ensures#others forall k2 int, x Value :: trig(k2, x) && k2 != idx ==> (holds(*as(v.value, *structT).Methods, k2, x) <==> old(holds(*as(v.value, *structT).Methods, k2, x)))
 //@   ensures#wf wfIM(*as(v.value, *structT).Methods) && *as(v.value, *structT) == old(*as(v.value, *structT))
+//@
+//@ -- type definition and reload: fields are added to (or replaced in) the type object in place
+//@ func (Value).addField
+//@   property C12 C17 C07
+//@   axioms POW2 COUNT
+//@   requires is(v.value, *structT) && wfS(as(v.value, *structT))
+//@   modifies fields(as(v.value, *structT)) elems(as(v.value, *structT).Fields.pairs) elems(as(v.value, *structT).Order) M$Str$Int$dom M$Str$Int$val M$Str$Int$card
+//@   allocates elems(intMapPair) elems(string)
+//@   nopanic
+//@   ensures#wf wfS(as(v.value, *structT))
+//@   ensures#stored trig(idx, val) ==> holds(as(v.value, *structT).Fields, idx, val)
+//@   ensures#others forall k2 int, x Value :: trig(k2, x) && k2 != idx ==> (holds(as(v.value, *structT).Fields, k2, x) <==> old(holds(as(v.value, *structT).Fields, k2, x)))
+//@   ensures#keys forall k2 int :: trig(k2) ==> (has(as(v.value, *structT).Fields, k2) <==> (old(has(as(v.value, *structT).Fields, k2)) || k2 == idx))
+//@   ensures#lookup as(v.value, *structT).Lookup == old(as(v.value, *structT).Lookup) && haskey(as(v.value, *structT).Lookup, key) && as(v.value, *structT).Lookup[key] == idx
+//@   ensures#lookupothers forall k2 string :: k2 != key ==> haskey(as(v.value, *structT).Lookup, k2) == old(haskey(as(v.value, *structT).Lookup, k2)) && as(v.value, *structT).Lookup[k2] == old(as(v.value, *structT).Lookup[k2])
+//@   ensures#shared as(v.value, *structT).Methods == old(as(v.value, *structT).Methods) && as(v.value, *structT).TypeN == old(as(v.value, *structT).TypeN)
